@@ -360,8 +360,16 @@ def load_known():
 
 
 def is_known(prop, key):
+    """An entry matches its own key; an entry that lists `inputs` identifies the finding by the specific inputs that fail:
+    a failure reported as `<key>#<input id>` is known only when that input id is listed, so the same kind of failure on ANY
+    other input of the pinned campaign is still reported."""
+    base, _, inp = key.partition("#")
     for k in load_known():
-        if k.get("property") == prop and k.get("key") == key and k.get("status") == "known":
+        if k.get("property") != prop or k.get("status") != "known":
+            continue
+        if k.get("key") == key and not k.get("inputs"):
+            return k
+        if inp and k.get("key") == base and inp in k.get("inputs", []):
             return k
     return None
 
